@@ -317,6 +317,119 @@ func c19AskSer(o *vOut, m *MRTMessage, b []byte) {
 	o.stat("model_ser_asks", 1)
 }
 
+// CONSTRUCTORS over the cross product of their discriminating arguments: address family of every
+// address argument (IPv4, IPv6, IPv4-mapped IPv6, zoned link-local) x AS width x AS range. A
+// constructor (or the Serialize of what it built) must refuse the combination, or the record
+// must parse back to the very arguments (zones excepted: the wire format has none).
+func c19CtorCross(o *vOut, dog *c19Dog, r *vRand) {
+	addrs := []netip.Addr{netip.MustParseAddr("192.0.2.1"), netip.MustParseAddr("192.0.2.2"), netip.MustParseAddr("2001:db8::1"), netip.MustParseAddr("2001:db8::2"),
+		netip.MustParseAddr("::ffff:192.0.2.1"), netip.MustParseAddr("::ffff:192.0.2.2"), netip.MustParseAddr("fe80::1%eth0"), netip.MustParseAddr("fe80::2%eth1"),
+		netip.MustParseAddr("0.0.0.0"), netip.MustParseAddr("::")}
+	ases := []uint32{0, 1, 65535, 65536, 4200000000}
+	unzone := func(a netip.Addr) netip.Addr { return a.WithZone("") }
+	for _, peer := range addrs {
+		for _, local := range addrs {
+			for _, as4 := range []bool{false, true} {
+				pa, la := ases[r.intn(len(ases))], ases[r.intn(len(ases))]
+				ifi := uint16(r.next())
+				kind := "bgp4mp-state-change"
+				sub := MRTSubTypeBGP4MP(STATE_CHANGE)
+				if as4 {
+					sub = STATE_CHANGE_AS4
+				}
+				var body Body
+				var err error
+				isMsg := r.chance(50)
+				if isMsg {
+					kind, sub = "bgp4mp-message", MESSAGE
+					if as4 {
+						sub = MESSAGE_AS4
+					}
+					body, err = NewBGP4MPMessage(pa, la, ifi, peer, local, as4, bgp.NewBGPKeepAliveMessage())
+				} else {
+					body, err = NewBGP4MPStateChange(pa, la, ifi, peer, local, as4, ACTIVE, ESTABLISHED)
+				}
+				detail := map[string]any{"peer_address": peer.String(), "local_address": local.String(), "as4": as4, "peer_as": pa, "local_as": la}
+				if err != nil {
+					o.stat("ctor_"+kind+"_refused", 1)
+					continue
+				}
+				res := dog.run("ctor "+kind, nil, func() string {
+					m, err := NewMRTMessage(time.Unix(1700000000, 0), BGP4MP, sub, body)
+					if err != nil {
+						return "refused"
+					}
+					b, err := m.Serialize()
+					if err != nil {
+						return "refused"
+					}
+					h, err := ParseHeader(b)
+					if err != nil {
+						return "perr:" + err.Error()
+					}
+					m2, err := ParseBody(b[MRT_COMMON_HEADER_LEN:], h)
+					if err != nil {
+						return "perr:" + err.Error()
+					}
+					var h2 *BGP4MPHeader
+					switch x := m2.Body.(type) {
+					case *BGP4MPMessage:
+						h2 = x.BGP4MPHeader
+					case *BGP4MPStateChange:
+						h2 = x.BGP4MPHeader
+					}
+					if h2 == nil || h2.PeerIpAddress != unzone(peer) || h2.LocalIpAddress != unzone(local) || h2.InterfaceIndex != ifi {
+						detail["parsed_back"] = fmt.Sprintf("%+v", h2)
+						return "fields"
+					}
+					if h2.PeerAS != pa || h2.LocalAS != la {
+						detail["parsed_back"] = fmt.Sprintf("peer AS %d local AS %d", h2.PeerAS, h2.LocalAS)
+						return "as-truncated"
+					}
+					return "ok"
+				})
+				o.stat("ctor_"+kind+"_"+strings.SplitN(res, ":", 2)[0], 1)
+				switch {
+				case res == "ok" || res == "refused":
+				case res == "as-truncated":
+					// known finding: the 2-octet subtypes take AS numbers beyond 65535 and truncate them
+					o.fail("constructor-accepts-value-that-does-not-roundtrip:"+kind+":as-truncated", detail)
+				default:
+					detail["outcome"] = res
+					o.fail("constructor-accepts-value-that-does-not-roundtrip:"+kind, detail)
+				}
+			}
+		}
+	}
+	// NewPeer: address family x AS width x AS range (a 2-octet entry with a larger AS is refused by Serialize)
+	for _, addr := range addrs {
+		for _, as4 := range []bool{false, true} {
+			for _, as := range ases {
+				p := NewPeer(netip.MustParseAddr("10.1.1.1"), addr, as, as4)
+				res := dog.run("ctor peer", nil, func() string {
+					b, err := p.Serialize()
+					if err != nil {
+						return "refused"
+					}
+					q := &Peer{}
+					rest, err := q.decodeFromBytes(b)
+					if err != nil || len(rest) != 0 {
+						return "perr"
+					}
+					if q.IpAddress != unzone(addr) || q.AS != as || q.BgpId != netip.MustParseAddr("10.1.1.1") {
+						return "fields"
+					}
+					return "ok"
+				})
+				o.stat("ctor_peer_"+res, 1)
+				if res != "ok" && res != "refused" {
+					o.fail("constructor-accepts-value-that-does-not-roundtrip:mrt-peer", map[string]any{"address": addr.String(), "as": as, "as4": as4, "outcome": res})
+				}
+			}
+		}
+	}
+}
+
 func c19HdrErr(err error) string {
 	if strings.Contains(err.Error(), "expected: 16") {
 		return "err shortET"
@@ -701,6 +814,8 @@ func TestVerifC19(t *testing.T) {
 			}
 		}
 	}
+
+	c19CtorCross(o, dog, r)
 
 	var pool [][]byte
 	for i := 0; i < n; i++ {
